@@ -20,8 +20,8 @@ EXPLORER = 'E2'
 CLAUSES = ['C11.caller_frame', 'C11.caller_dict', 'C11.global', 'C11.snapshot_private', 'C11.later_chunks',
            'C11.global_edit_after_construct', 'C11.snapshot_edit', 'C11.reset_after_nested_edit', 'C11.extra_column_frame']
 RULE = ('operations: 3 in-place edits of the global (top-level scalar, third-level nested value, list element), 9 constructions '
-        '(4 frames incl. wrong dtypes / extra columns / clean dtypes + extra columns / odd index x 7 per-call dicts: None, {}, flat, '
-        'nested-partial, third-level + list-valued, unknown keys), run(i), 2 in-place edits of a chunk snapshot, reset_prms(), '
+        '(5 frames incl. wrong dtypes / extra columns / clean dtypes + extra columns / odd index / a rich 3-ceilometer scene reaching bundles, splits and the exclusion fall-back x 8 per-call dicts: None, {}, flat, '
+        'nested-partial, third-level, list-valued, unsorted list-valued, unknown keys), run(i), 2 in-place edits of a chunk snapshot, reset_prms(), '
         'reset_prms([name]), set_prms(yaml); at most 2 live chunks. All histories up to the depth bound, de-duplicated by content digest. '
         'states = distinct content digests, transitions = real operations judged, traces_validated = histories replayed from scratch')
 ASSUMPTIONS = ['in-place edits of a snapshot use paths that no per-call dict provided (a list passed by the caller is aliased into the '
@@ -36,6 +36,8 @@ P_TEMPLATES = {
     'deep': {'LAYERING_PRMS': {'gmm_kwargs': {'delta_mul_gain': 0.5}}, 'SLICING_PRMS': {'height_scale_kwargs': {'min_range': 2000}}},
     'lists': {'MIN_SEP_VALS': [100, 500], 'EXCLUDE_FOR_BASE_HEIGHT_CALC': ['b']},
     'unknown': {'FOO': 1, 'LOWESS': {'bar': 2}, 'MSA': 4000},
+    # list-valued leaves given in an order the algorithm does not care about (must still be left exactly as given)
+    'unsorted': {'GROUPING_PRMS': {'height_scale_range': [500, 100]}, 'EXCLUDE_FOR_BASE_HEIGHT_CALC': ['c', 'b'], 'MAX_HITS_OKTA0': 3},
 }
 YAML_TEXT = "MSA: 2500\nLOWESS:\n    frac: 0.5\nLAYERING_PRMS:\n    gmm_kwargs:\n        mode: prob\n"
 YAML_DICT = {'MSA': 2500, 'LOWESS': {'frac': 0.5}, 'LAYERING_PRMS': {'gmm_kwargs': {'mode': 'prob'}}}
@@ -47,9 +49,10 @@ G_EDITS = {
 }
 S_EDITS = {
     'frac': (('LOWESS', 'frac'), 0.9),
-    'range0': (('GROUPING_PRMS', 'height_scale_range', 0), 7),
+    'lims0': (('MIN_SEP_LIMS', 0), 9999),        # (a list element no per-call template provides: see ASSUMPTIONS)
 }
-CONSTRUCTS = [('clean', p) for p in P_TEMPLATES] + [('sloppy_extra', 'None'), ('clean_extra', 'flat'), ('oddindex', 'nested')]
+CONSTRUCTS = [('clean', p) for p in P_TEMPLATES if p != 'unsorted'] + [('sloppy_extra', 'None'), ('clean_extra', 'flat'), ('oddindex', 'nested'),
+                                                                         ('rich', 'unsorted'), ('rich', 'lists')]
 
 
 def make_frame(kind):
@@ -66,6 +69,15 @@ def make_frame(kind):
     if kind == 'oddindex':
         df.index = [5, 5, 3, 'x', 2.5]
         return df
+    if kind == 'rich':
+        # a scene that reaches the data-dependent branches of the later stages: a bundle of overlapping slices, a group split by the mixture
+        # step, an MSA-croppable high deck, and a layer seen almost only by ceilometers 'b'/'c' (exclusion fall-back)
+        from .. import scenes as sc
+        from . import _deckfam
+        rows = sc.build(_deckfam.D({'h': 1000., 'n': 30, 'pattern': 'rampup', 'ceilo': 0}, {'h': 1210., 'n': 30, 'pattern': 'rampup', 'ceilo': 0},
+                                   {'h': 1800., 'n': 2, 'ceilo': 0}, {'h': 1810., 'n': 20, 'ceilo': 2}, {'h': 1805., 'n': 12, 'ceilo': 1},
+                                   T=30, ceilos=['a', 'b', 'c']))
+        return sc.frame(rows)
     raise ValueError(kind)
 
 
